@@ -177,6 +177,9 @@ pub struct Engine {
     xcheck_n: u64,
     /// keep the constant hash of symbolic items also in concrete re-executions (C20)
     constant_hash_in_replay: bool,
+    /// members of `distinct` assumptions of this run: constant -> index of the assumption
+    distinct_of: HashMap<u32, u32>,
+    n_distinct: u32,
 }
 
 thread_local! {
@@ -242,6 +245,8 @@ impl Engine {
             xcheck_buf: String::new(),
             xcheck_n: 0,
             constant_hash_in_replay: false,
+            distinct_of: HashMap::new(),
+            n_distinct: 0,
         }
     }
 
@@ -397,6 +402,16 @@ impl Engine {
         if let Some(v) = self.cache.get(&a) {
             return *v;
         }
+        if let Atom::Eq(x, y) = a {
+            if x != y {
+                if let (Some(p), Some(q)) = (self.distinct_of.get(&x), self.distinct_of.get(&y)) {
+                    if p == q {
+                        // both are arguments of one asserted (distinct ...): unequal by that assertion
+                        return false;
+                    }
+                }
+            }
+        }
         let lit = self.atom_ast(a);
         let r1 = self.solver_check_with(lit);
         if r1 == L_FALSE {
@@ -528,6 +543,15 @@ pub fn assume(f: &F) {
         let a = e.f_ast(f);
         e.z3.as_mut().unwrap().assert(a);
         e.asserted.push(a);
+        if let F::Distinct(ids) = f {
+            // remembered so that an equality between two members of the same asserted
+            // `distinct` is read off the assertion instead of being sent to the solver
+            let k = e.n_distinct;
+            e.n_distinct += 1;
+            for id in ids {
+                e.distinct_of.entry(*id).or_insert(k);
+            }
+        }
         let r = e.z3.as_mut().unwrap().check();
         if r == L_FALSE {
             std::panic::panic_any(Infeasible);
@@ -894,6 +918,8 @@ where
                                 e.cmp_mark = None;
                                 e.run_notes.clear();
                                 e.asserted.clear();
+                                e.distinct_of.clear();
+                                e.n_distinct = 0;
                                 e.hash_classes.clear();
                                 e.cache.clear();
                                 e.z3.as_mut().unwrap().push();
